@@ -454,6 +454,16 @@ def explore(ctx, extended=False, focus=None):
                                                f"{be}: {mode} on {n} inputs ({','.join(sorted(set(meta['classes'])))}) returns "
                                                f"{str(got[:1])[:40]}…, plain reference {str(want[:1])[:40]}…"
                                                + (" (congruent modulo p, not the field element's representative)" if cong else ""), rep))
+            if mode == "hash" and "again" in fld:
+                ex.count("hash:same-list-hashed-twice")
+                a, b_ = fld.get("inlen", "0/0").split("/")
+                if a != b_:
+                    ex.violations.append(Violation({"clause": "value", "mode": "hash", "dev": "input-list-mutated"},
+                                                   f"{be}: poseidon_hash changed its caller's list of {b_} inputs (now {a} elements)", rep))
+                if fld["again"] != ",".join(map(str, want)):
+                    ex.violations.append(Violation({"clause": "value", "mode": "hash", "dev": "second-call-on-same-list"},
+                                                   f"{be}: hashing the same list object of {n} inputs a second time returns {fld['again'][:40]}…, "
+                                                   f"plain reference {str(want[:1])[:40]}…", rep))
             if "vector" in meta["classes"] and vectors.get(be) and be not in NOT_ASSERTED_VECTORS:
                 ex.count("published-vector")
                 if got != vectors[be][1]:
